@@ -141,7 +141,7 @@ def findings(prog, fi: FuncInfo):
                 hit = u
                 break
             if hit is not None:
-                out.append((name, dn.ast, first, hit, what))
+                out.append((name, dn.ast if dn.ast is not None else fn, first, hit, what))
                 break
             if n.id in kills:
                 continue  # re-defined (also: the defining statement itself, reached again round an outer loop)
